@@ -21,7 +21,7 @@ var thoroughExtra = map[string][]string{
 	"C07": {"EFFECT-3", "EFFECT-7"},
 	"C08": {"SORTLESS-2", "DS~DS-2"},
 	"C09": {"PARSE"},
-	"C10": {"TC", "PARSE", "LAZY", "TRAVERSE-1"},
+	"C10": {"TC", "LAZY", "TRAVERSE-1"},
 	"C11": {"TC", "SIBLING-1", "SIBLING-3", "SIBLING-6", "POPORDER-1", "LAZY"},
 	"C12": {"ENVCHK", "BC-3", "LEX~LEX-7", "PARSE", "TOTAL-1", "EFFECT-7"},
 	"C13": {"INTGUARD-1", "SORTLESS-2", "IDENT-1", "LAYOUT", "ENVCHK"},
@@ -49,7 +49,7 @@ var props = map[string]propSpec{
 	"C07": ps("whether types.Equals is the right relation for host data of equal shape (C15/C17)", "ENVCHK", "PANIC-1", "EQ-FIELDS", "LAYOUT", "CONV", "EFFECT-2", "SIBLING-9"),
 	"C08": ps("equality with a reference precedence parser for all operator tables; syntax-error classification of arbitrary token sequences", "PARSE", "EFFECT-2", "LEX~LEX-7"),
 	"C09": ps("agreement with a reference maximal-munch lexer on all strings; the regular languages of the literal patterns", "LEX", "LEX-8", "SORTLESS-2", "EFFECT-2", "EFFECT-7"),
-	"C10": ps("the semantic half (same value or fail alike) beyond operand order and callee; it follows from C03/C05 for the explicit call", "DS", "DS-7", "DS-9", "SIBLING-4", "LEX-8", "LEX~LEX-7"),
+	"C10": ps("the semantic half (same value or fail alike) beyond operand order and callee; it follows from C03/C05 for the explicit call", "DS", "DS-7", "DS-9", "SIBLING-4", "LEX-8", "LEX~LEX-7", "PARSE"),
 	"C11": ps("nothing is executed: the stack-effect walk is an induction over the compiler source (trusted: the walker's model of the six emitter functions)", "BC-1", "BC-2", "BC-3", "BC-5", "BC-6", "BC-7", "SIBLING-2", "EFFECT-2"),
 	"C12": ps("termination / polynomial time in general (only the backtracking structure is decided); unrecoverable Go failures (stack exhaustion, OOM, concurrent map write)", "PANIC-1", "PARSE-8", "CONV", "BC-2", "BC-3", "DS-7", "TRAVERSE-1", "PAIR-2"),
 	"C13": ps("time literals relative to now; user-registered functions", "EFFECT-1", "EFFECT-2", "EFFECT-3", "EFFECT-4", "EFFECT-5", "EFFECT-6", "EFFECT-7", "ENGINE", "MAPORDER-1", "MAPORDER-2", "PAIR-1", "SORTLESS-1", "SIBLING-9", "ENVCHK", "IDENT-2", "DS~DS-2"),
